@@ -18,3 +18,30 @@ Theorem C01_equiv_transitive : forall g1 g2 g3 a b c,
   beh_eq g1 g2 a b -> beh_eq g2 g3 b c -> beh_eq g1 g3 a c.
 Proof. exact beh_eq_trans. Qed.
 Print Assumptions C01_equiv_transitive.
+
+(* ---- the label-resolution part of the compiler's back end, proved for all inputs ---- *)
+From ES Require Import Ssb.Tables Ssb.Machine Comp.Passes Comp.PopSem Comp.RemoveSem Comp.TableRight Comp.BackEnd.
+
+(* For the label table LabelFinalizer computes and the op list OpsLabelJumpToRemover builds from it: every
+   routine of the op list behaves - for all outcomes of all tests, to every length - like the corresponding
+   routine of the pseudo code it was built from (a label is a silent position, a label jump goes to its label).
+   [backend_ok] collects the side conditions (no routine ends in a label, no label directly after a context
+   op, plain ops carry no jump opcode, label jumps have the table's arity, labels and offsets are unique, no
+   cycle of silent moves); it is evaluated on every captured compilation by the check. *)
+Theorem C01_label_resolution_preserves : forall rs fin t P',
+  finalize rs = (fin, t) -> remove_all t fin = Ok P' -> backend_ok fin P' = true ->
+  Forall2 (entry_rel (beh_eq (cfg_of_pops fin) (cfg_of_ssb P'))) (pop_entries fin) (ssb_entries P').
+Proof. exact label_resolution_preserves_b. Qed.
+Print Assumptions C01_label_resolution_preserves.
+
+(* non-vacuity: a loop with a test, labels at several places, a cross-routine jump *)
+Example C01_backend_example :
+  let rs := [[PLabel 0; POp (mkOp 1 "a" []); PJump (mkOp 2 "Branch" [PInt 1; PInt 2]) 1; PJump (mkOp 3 "Jump" []) 0;
+              PLabel 1; PLabel 2; POp (mkOp 4 "End" [])];
+             [PJump (mkOp 5 "Jump" []) 2]]%Z%string in
+  let '(fin, t) := finalize rs in
+  match remove_all t fin with
+  | Ok P' => backend_ok fin P' = true
+  | Err _ => False
+  end.
+Proof. vm_compute. reflexivity. Qed.
